@@ -139,6 +139,9 @@ func (o *orC04) afterEvent() {
 
 func (o *orC04) onZK(e *ZKEvent) {
 	m := o.m
+	if e.Err == 0 && e.Path == "/test/active_nodes" && !m.isDaemon(e.Inc) && (e.Op == "set" || e.Op == "create") {
+		o.prevList = parseStrList(e.Data) // initial / external content
+	}
 	if e.Err != 0 || e.Path != "/test/active_nodes" || !m.isDaemon(e.Inc) {
 		return
 	}
@@ -157,8 +160,31 @@ func (o *orC04) checkPublished(e *ZKEvent) {
 	s := m.s
 	W := parseStrList(e.Data)
 	m.probe("c04_active_list_published")
+	// a write that only takes members out of the previous list before this iteration recomputed
+	// the membership (SetRecovery during repair) is not a statement about the members it keeps
+	shrinkOnly := false
+	if it := m.iters[e.Inc]; it != nil && o.prevList != nil {
+		recomputed := false
+		for _, r := range it.reads {
+			if r.path == "recovery" && r.op == "children" && r.seq <= e.Seq {
+				recomputed = true
+			}
+		}
+		if !recomputed {
+			shrinkOnly = true
+			for _, h := range W {
+				if !contains(o.prevList, h) {
+					shrinkOnly = false
+				}
+			}
+		}
+	}
 	for _, h := range W {
 		if h == m.master {
+			continue
+		}
+		if shrinkOnly {
+			m.probe("c04_shrink_only_write_before_recomputation")
 			continue
 		}
 		// the switchover publishes before recording the new master: its candidate has no channel
@@ -200,7 +226,13 @@ func (o *orC04) checkPublished(e *ZKEvent) {
 		if first, ok := o.firstEval[h]; ok {
 			lim := ms(s.spec.Cfg.InactivationDelayMs) + 2*ms(s.spec.Cfg.TickMs) + ms(s.spec.Cfg.DBTimeoutMs)*2
 			if it.startT-first > lim && o.evalCount[h] >= 3 {
-				m.violate("C04", "member_not_replicating", "replica-not-replicating-beyond-inactivation-delay-in-active-list", fmt.Sprintf("%s published %s although %s has not been replicating from the master since before %v, %d membership evaluations ago (inactivation delay %dms)", e.Inc, e.Data, h, first, o.evalCount[h], s.spec.Cfg.InactivationDelayMs))
+				culprit := "replica-not-replicating-beyond-inactivation-delay-in-active-list"
+				// the manager cannot reach the host, whose own daemon keeps a good health record in
+				// ZooKeeper: calcActiveNodes deliberately keeps such a member
+				if raw, ok := s.zk.get("/test/health/" + h); ok && strings.Contains(raw, `"ping_ok":true`) && s.net.blocked(srcHostOf(e.Inc), h) {
+					culprit = "unreachable-member-kept-on-its-own-health-record"
+				}
+				m.violate("C04", "member_not_replicating", culprit, fmt.Sprintf("%s published %s although %s has not been replicating from the master since before %v, %d membership evaluations ago (inactivation delay %dms)", e.Inc, e.Data, h, first, o.evalCount[h], s.spec.Cfg.InactivationDelayMs))
 			}
 		}
 	}
@@ -335,10 +367,35 @@ func (o *orC04) onIterLeave(it *iterRec) {
 				if cl == "b" && o.laggingListed() {
 					culprit = "listed-replica-without-semisync-not-counted"
 				}
+				if cl == "a" && o.onlyStaleEffective() {
+					culprit = "replica-keeps-acking-after-variable-switched-off"
+				}
 				m.violate("C04", "post_"+cl, culprit, fmt.Sprintf("%s completed an undisturbed iteration with master healthy but: %s", it.inc, det))
 			}
 		}
 	}
+}
+
+// onlyStaleEffective: every replica breaking (a) has its semi-sync variable off and only the
+// state of its running IO thread (set when the thread started) still on - the signature of a
+// disable whose IO-thread restart did not happen
+func (o *orC04) onlyStaleEffective() bool {
+	m := o.m
+	s := m.s
+	mst := s.mysql.servers[m.master]
+	found := false
+	for _, sv := range s.mysql.sorted() {
+		if sv == mst || !sv.Up || !sv.Registered || !m.isHA(sv.Name) || contains(m.active, sv.Name) {
+			continue
+		}
+		if sv.SSSlave {
+			return false
+		}
+		if sv.SSSlaveEff && sv.IORun {
+			found = true
+		}
+	}
+	return found
 }
 
 // laggingListed: a member of the published list (other than the master) whose semi-sync slave flag is
